@@ -149,6 +149,69 @@ fn compare_cases(ctx: &Ctx, pairs: &[(i64, i64)]) {
     judge_snippets(ctx, "compare", &ok, 200);
 }
 
+// Left-associated chains `x op1 c1 op2 c2`: every intermediate result must
+// fit (or the chain stops with the diagnostic of that step), whatever the
+// constants after it are.
+fn chain_cases(ctx: &Ctx, vals: &[i64]) {
+    let consts = [0i64, 1, -1, 2, -2];
+    let mut ok = vec![];
+    let mut bad = vec![];
+    for x in vals {
+        for op1 in sdmodel::ast::ARITH_OPS {
+            for op2 in sdmodel::ast::ARITH_OPS {
+                for c1 in consts {
+                    for c2 in consts {
+                        // Written with the variable first so that no operand is a
+                        // compile-time constant pair only.
+                        let src_var = format!("x := {}\nprint(x {} {} {} {})", int_src(*x), op1.sym(), int_src(c1), op2.sym(), int_src(c2));
+                        let src_lit = format!("print({} {} {} {} {})", int_src(*x), op1.sym(), int_src(c1), op2.sym(), int_src(c2));
+                        // Grouping follows the tiers: `* / %` bind tighter than `+ -`.
+                        let tight = |o: Op| matches!(o, Op::Mul | Op::Div | Op::Mod);
+                        let (first, second): ((Op, i64, i64), Box<dyn Fn(i64) -> (Op, i64, i64)>) =
+                            if !tight(op1) && tight(op2) {
+                                ((op2, c1, c2), Box::new(move |r| (op1, *x, r)))
+                            } else {
+                                ((op1, *x, c1), Box::new(move |r| (op2, r, c2)))
+                            };
+                        let nt = nontrivial(first.0, first.1, first.2);
+                        match exact(first.0, first.1, first.2) {
+                            None => {
+                                let mut e = Expect::err(vec![]);
+                                e.diag = vec![DiagPred::WellFormed{max_line: 3}, DiagPred::MsgContains(vec![first.1.to_string(), first.0.sym().to_string(), first.2.to_string()])];
+                                if nt && (c1 + c2 == 0 || c2 == 0 || c2 == -1) {
+                                    bad.push((Case{property: "C06".into(), kind: "chain".into(), srcs: vec![format!("{src_var}\n").into_bytes()], pred: Pred::Expect(e), note: "first step of a chain does not fit 64 bits".into()}, true));
+                                }
+                            },
+                            Some(r) => {
+                                let (o2, a2, b2) = second(r as i64);
+                                match exact(o2, a2, b2) {
+                                    Some(v) => {
+                                        ok.push(Snippet{body: src_var, expect: format!("{v}\n"), nontrivial: nt || nontrivial(o2, a2, b2), note: "chain".into()});
+                                        if nt {
+                                            ok.push(Snippet{body: src_lit, expect: format!("{v}\n"), nontrivial: true, note: "chain of literals".into()});
+                                        }
+                                    },
+                                    None => {
+                                        let mut e = Expect::err(vec![]);
+                                        e.diag = vec![DiagPred::WellFormed{max_line: 3}, DiagPred::MsgContains(vec![a2.to_string(), o2.sym().to_string(), b2.to_string()])];
+                                        if nontrivial(o2, a2, b2) && (a2 > i64::MAX - 3 || a2 < i64::MIN + 3 || b2 == 0) {
+                                            bad.push((Case{property: "C06".into(), kind: "chain".into(), srcs: vec![format!("{src_var}\n").into_bytes()], pred: Pred::Expect(e), note: "second step of a chain does not fit 64 bits".into()}, true));
+                                        }
+                                    },
+                                }
+                            },
+                        }
+                    }
+                }
+            }
+        }
+    }
+    ctx.label_n("chains: value", ok.len() as u64);
+    ctx.label_n("chains: error", bad.len() as u64);
+    judge_snippets(ctx, "chain", &ok, 200);
+    ctx.judge_all(bad, Via::Cli, None);
+}
+
 fn literal_cases(ctx: &Ctx, t: &mut Tape, n: u64) {
     let mut ok = vec![];
     let mut bad = vec![];
@@ -279,7 +342,7 @@ fn random_pair(t: &mut Tape) -> (i64, i64) {
 }
 
 pub fn run(ctx: &Ctx) {
-    ctx.set_rule("exhaustive grid of boundary values squared x {+ - * / %} x {plain, op-assign on variable / list element / .k / [\"k\"]} and x {< <= > >= == !=}, the division identity, literals with separators / leading zeros / out-of-range values, ranges around every boundary, plus random 64-bit pairs; oracle: exact i128 arithmetic (result printed iff it fits i64, otherwise exit 103 naming operands and operator in order). Non-trivial = exact result differs from the wrapping one, zero divisor, negative operand of / or %, or an operand within 1 of +-2^63; distinct = distinct source texts");
+    ctx.set_rule("exhaustive grid of boundary values squared x {+ - * / %} x {plain, op-assign on variable / list element / .k / [\"k\"]} and x {< <= > >= == !=}, the division identity, left-associated chains x op1 c1 op2 c2 over boundary x and constants {0, +-1, +-2} (every intermediate step must fit), literals with separators / leading zeros / out-of-range values, ranges around every boundary, plus random 64-bit pairs; oracle: exact i128 arithmetic (result printed iff it fits i64, otherwise exit 103 naming operands and operator in order). Non-trivial = exact result differs from the wrapping one, zero divisor, negative operand of / or %, or an operand within 1 of +-2^63; distinct = distinct source texts");
     ctx.replay_corpus(None);
     let vals = boundary_values(ctx.tier == Tier::Thorough);
     ctx.set_extra("grid_values", serde_json::json!(vals.len()));
@@ -293,6 +356,8 @@ pub fn run(ctx: &Ctx) {
     compare_cases(ctx, &pairs);
     ctx.mark_exhaustive(&format!("{0} x {0} boundary grid x 5 arithmetic operators x 5 forms, x 6 comparisons", vals.len()));
     range_cases(ctx);
+    let near: Vec<i64> = vals.iter().copied().filter(|v| *v >= i64::MAX - 2 || *v <= i64::MIN + 2 || v.abs() <= 3 || v.abs() == 1 << 62 || v.abs() == 3037000500).collect();
+    chain_cases(ctx, &near);
     let mut t = sdmodel::tape::tape_from_seed(ctx.sub_seed("literals", 0), 40_000);
     literal_cases(ctx, &mut t, ctx.n(300, 5_000));
     // Random pairs.
